@@ -502,14 +502,15 @@ def plan_prefixes(rng, recs, outs, budget=None):
     return sorted(pick, key=lambda c: (c["h"], c["k"]))
 
 
-def restart(ctx, jp, cases, name="fe", par=16, timeout=1500, binary=None):
+def restart(ctx, jp, cases, name="fe", par=16, timeout=1500, binary=None, rate=0):
     bindir = binary or ctx.go_build(["./cmd/durable"])
     d = ctx.tmp("durable_" + name)
     pp, op = os.path.join(d, "plan.ndjson"), os.path.join(d, "results.ndjson")
     with open(pp, "w") as fh:
         for c in cases:
             fh.write(json.dumps({"h": c["h"], "k": c["k"], "req": c["req"]}) + "\n")
-    stats = _run([os.path.join(bindir, "durable"), "restart", "-journals", jp, "-plan", pp, "-out", op, "-par", str(par)], timeout)
+    stats = _run([os.path.join(bindir, "durable"), "restart", "-journals", jp, "-plan", pp, "-out", op, "-par", str(par),
+                  "-rate", str(rate)], timeout)
     results = [json.loads(l) for l in open(op)]
     vlib.log("[durable] %d restarts: %d facts compared, %d divergences, %d without verdict (machinery)" % (
         stats["restarts"], stats["checked"], stats["divergences"], stats["trouble"]))
